@@ -402,6 +402,12 @@ func reflectSetJustified(c *ssa.Call, recv, arg ssa.Value) (bool, string) {
 			return true, "behind a test that the value's type is the field's type"
 		}
 	}
+	// (ii') reflect.Zero(recv.Type())
+	if zc, _ := callOf(arg); zc != nil {
+		if g := zc.Common().StaticCallee(); g != nil && fullName(g) == "reflect.Zero" && reflectTypeOf(zc.Common().Args[0]) == recv {
+			return true, "the zero value of the field's own type"
+		}
+	}
 	// (ii) zero value of the receiver's type: reflect.New(recv.Type()).Elem()
 	if ec, _ := callOf(arg); ec != nil {
 		if g := ec.Common().StaticCallee(); g != nil && fullName(g) == "reflect.(Value).Elem" {
